@@ -7,6 +7,24 @@ import catalog
 props = [json.loads(l) for l in open(os.path.join(VERIF, 'properties.jsonl'))]
 ready = set(open(os.path.join(VERIF, 'harness', 'ready.txt')).read().split())
 claimed = sorted((set(h['property'] for h in catalog.HARNESSES) | set(k for k, v in catalog.PROPERTY_INFO.items() if 'quick_cmd' in v)) & ready)
+
+
+def group_descs(hs):
+    # one description per entry function (sibling catalogue entries differ in a concrete parameter only)
+    seen, out = {}, []
+    for h in hs:
+        k = (h['src'], h['entry'])
+        if k in seen:
+            seen[k][1] += 1
+            continue
+        seen[k] = [len(out), 1]
+        out.append(h['desc'])
+    for k, (i, n) in seen.items():
+        if n > 1:
+            out[i] = '%s [%d queries of this shape]' % (out[i][:400], n)
+    return out
+
+
 checks = []
 for pid in claimed:
     info = catalog.PROPERTY_INFO.get(pid, {})
@@ -20,7 +38,7 @@ for pid in claimed:
         engine='cbmc-on-lowered-ir',
         level_claimed=dict(category=info.get('level', 'model_checking'),
                            text=info.get('claim', 'Bounded model checking (CBMC/SAT) of the real functions lowered from /repo at check time: '
-                                         + '; '.join([h['desc'] for h in hs] or [info.get('desc', '')]) + '. Holds for every value of the symbolic inputs within the stated bounds; nothing is claimed outside them.'),
+                                         + '; '.join(group_descs(hs) or [info.get('desc', '')]) + '. Holds for every value of the symbolic inputs within the stated bounds (COVERAGE.md lists domain, oracle and bounds of every query); nothing is claimed outside them.'),
                            design_ref='DESIGN.md section 4 ' + pid),
         level_note='Trusted: clang-14 -O1 lowering, engine/ll2c.py (IR->C), models in /verif/models (listed per harness in the evidence), CBMC 6.11. '
                    'Outside the claim: ' + info.get('outside', ''),
